@@ -37,7 +37,7 @@ def gates(c, tier):
         out.append(f"only {c.get('distinct-interleaving-signatures', 0)} distinct interleaving signatures")
     for k in ("delivery-ends-mid-header", "delivery-ends-mid-body", "pipelining-depth>=5", "termination:unbind", "termination:notice",
               "quiescent-with-ops-in-progress", "quiescent-points", "probe-agreements", "noise-call-refused", "sasl-in-progress-round", "bind-failure",
-              "final-bind-response-with-sasl-creds", "scripted-long-conversations"):
+              "final-bind-response-with-sasl-creds", "scripted-long-conversations", "types-registered-mid-conversation"):
         if c.get(k, 0) == 0:
             out.append(f"never observed {k}")
     return out
@@ -416,6 +416,50 @@ def scripted(kind, size, seed):
     return sim
 
 
+def late_types(order):
+    """Both applications register their own filter / control types on a connection that has already carried traffic (which an
+    application does once it learns what the peer supports), then use them: every message still arrives once, as an equal
+    value (bare sessions; round-18 change C11-39). order: which side registers first and what was exchanged before."""
+    from vf.props.c19 import CustomControl, CustomFilter
+
+    def same(ctls):  # a decoded control also carries its raw value octets: compare type and fields
+        return [(type(x).__name__, x.critical, getattr(x, "size", None)) for x in ctls]
+
+    c, s = sl.LDAPClient(), sl.LDAPServer()
+    try:
+        if order & 1:
+            c.bind_simple("cn=a", "pw")
+            rq = s.receive(c.data_to_send())
+            s.bind_response(rq[0].message_id)
+            c.receive(s.data_to_send())
+        if order & 2:
+            mid = c.search_request("dc=x", filter=sl.FilterAnd([sl.FilterPresent("cn"), sl.FilterNot(sl.FilterEquality("a", b"b"))]))
+            data = c.data_to_send()
+            rq = s.receive(data[:9]) + s.receive(data[9:])
+            s.search_result_entry(mid, "cn=e", [])
+            s.search_result_done(mid)
+            c.receive(s.data_to_send())
+        for sess in ((c, s) if order & 4 else (s, c)):
+            sess.register_filter(CustomFilter)
+            sess.register_control(CustomControl)
+        flt = sl.FilterOr([sl.FilterNot(CustomFilter(value="late")), sl.FilterAnd([CustomFilter(value="x"), sl.FilterPresent("cn")])]) if order & 8 else CustomFilter(value="late")
+        ctl = [CustomControl(critical=bool(order & 16), size=77)]
+        mid = c.search_request("dc=y", filter=flt, controls=ctl)
+        data = c.data_to_send()
+        rq = s.receive(data[: len(data) // 2]) + s.receive(data[len(data) // 2:])
+        if len(rq) != 1 or rq[0].filter != flt or same(rq[0].controls) != same(ctl) or rq[0].message_id != mid:
+            return [("late-types:request-differs", f"server returned {rq!r:.200} for a search with filter {flt!r:.120} and controls {ctl!r}")]
+        s.search_result_done(mid, controls=ctl)
+        back = c.receive(s.data_to_send())
+        if len(back) != 1 or back[0].message_id != mid or same(back[0].controls) != same(ctl):
+            return [("late-types:response-differs", f"client returned {back!r:.200}")]
+        if (c.state.name, s.state.name) != ("OPENED", "OPENED"):
+            return [("late-types:state", f"client {c.state.name}, server {s.state.name}")]
+    except sl.LDAPError as e:
+        return [(f"protocol-error-in-legal-conversation:late-types:{type(e).__name__}", f"{type(e).__name__}: {str(e)[:200]}")]
+    return []
+
+
 def flood(n_req):
     """n_req requests in progress on one connection (bare sessions, batches of 5000): every request reaches the server,
     both ends stay OPENED, and the oldest, a middle and the newest one can still be answered."""
@@ -454,6 +498,14 @@ def run_shard(ctx: Ctx, acc: Acc):
         acc.nontrivial("flood", n_req)
         for key, what in flood(n_req):
             acc.violation(key, what, {"flood": n_req})
+    for order in range(32):
+        if order % ctx.nshards != ctx.shard:
+            continue
+        acc.case()
+        acc.count("types-registered-mid-conversation")
+        acc.nontrivial("late-types", order)
+        for key, what in late_types(order):
+            acc.violation(key, what + f" [types registered mid-conversation, variant {order}]", {"late_types": order})
     combos = [("sasl-rounds", 3), ("sasl-rounds", 17), ("sasl-rounds", 40), ("open-searches", 33), ("open-searches", 257), ("open-searches", 600), ("starttls-again", 3), ("starttls-again", 20)]
     for ci, (kind, size) in enumerate(combos):
         if ci % ctx.nshards != ctx.shard:
@@ -495,5 +547,7 @@ def replay(w):
         return flood(w["flood"])
     if w.get("scripted"):
         return scripted(*w["scripted"]).vio[:2]
+    if "late_types" in w:
+        return late_types(w["late_types"])
     sim = run_sim(tuple(w["seed_parts"]), w["steps_n"], w.get("want_term"))
     return sim.vio
